@@ -205,9 +205,9 @@ def run(ctx):
         shutil.rmtree(root, ignore_errors=True)
     ctx.require("shapes", ctx.pick(60, 200))
     ctx.require("faultfree_transfers_exact", ctx.pick(60, 200))
-    ctx.require("faults_delivered", ctx.pick(1000, 20000))
-    ctx.require("faults_delivered_write", ctx.pick(300, 5000))
-    ctx.require("faults_delivered_read", ctx.pick(500, 8000))
-    ctx.require("destinations_compared", ctx.pick(200, 3000))
+    ctx.require("faults_delivered", ctx.pick(1000, 10000))
+    ctx.require("faults_delivered_write", ctx.pick(300, 4000))
+    ctx.require("faults_delivered_read", ctx.pick(500, 5000))
+    ctx.require("destinations_compared", ctx.pick(200, 2000))
     for c in X.CODE_NAMES.values():
-        ctx.require("faults_code_" + c, ctx.pick(100, 1500))
+        ctx.require("faults_code_" + c, ctx.pick(100, 1000))
